@@ -1443,10 +1443,12 @@ rrul_fill_wly(echs_instant_t *restrict tgt, size_t nti, rrulsp_t rr)
 	}
 
 	/* fill up the array the hard way */
-	for (res = 0UL, maxd = echs_scale_ndim(srcsca, y, m); res < nti;
+	/* stop where the calendar (a table based one) or the year range ends */
+	for (res = 0UL, maxd = echs_scale_ndim(srcsca, y, m);
+	     res < nti && maxd && y < 4095U;
 	     ({
 		     d += rr->inter * 7U;
-		     while (d > maxd) {
+		     while (d > maxd && maxd && y < 4095U) {
 			     d -= maxd;
 			     if (++m > 12U) {
 				     y++;
@@ -1472,6 +1474,10 @@ rrul_fill_wly(echs_instant_t *restrict tgt, size_t nti, rrulsp_t rr)
 				}
 				this_maxd =
 					echs_scale_ndim(srcsca, this_y, this_m);
+				if (UNLIKELY(!this_maxd || this_y >= 4095U)) {
+					/* end of calendar */
+					goto fin;
+				}
 			}
 
 			for (ENUM_INIT(e, iS, iM, iH);
@@ -1601,16 +1607,18 @@ rrul_fill_dly(echs_instant_t *restrict tgt, size_t nti, rrulsp_t rr)
 	}
 
 	/* fill up the array the hard way */
+	/* we're subtractive, a rule that never matches runs into the end
+	 * of the calendar (a table based one) or of the year range */
 	for (res = 0UL, w = echs_scale_wday(srcsca, y, m, d),
 		     maxd = echs_scale_ndim(srcsca, y, m);
-	     res < nti;
+	     res < nti && maxd && y < 4095U;
 	     ({
 		     d += rr->inter;
 		     w += rr->inter;
 		     if (w > SUN) {
 			     w = (w - 1U) % 7U + 1U;
 		     }
-		     while (d > maxd) {
+		     while (d > maxd && maxd && y < 4095U) {
 			     d -= maxd;
 			     if (++m > 12U) {
 				     y++;
